@@ -122,9 +122,12 @@ func mapField(n *sbom.Node, f int) *map[int32]string {
 // ---------------------------------------------------------------- symbolic fill
 
 func symPerson(p string, depth int) *sbom.Person {
-	pe := &sbom.Person{Name: rt.NondetString(p + "name"), IsOrg: rt.NondetBool(p + "isorg"), Email: rt.NondetString(p + "email"),
-		Url: rt.NondetString(p + "url"), Phone: rt.NondetString(p + "phone")}
-	if depth > 0 {
+	pe := &sbom.Person{Name: rt.NondetString(p + "name"), IsOrg: rt.NondetBool(p + "isorg"), Email: rt.NondetString(p + "email")}
+	if rt.Bound("PersonFields", 2, 4) == 4 {
+		pe.Url = rt.NondetString(p + "url")
+		pe.Phone = rt.NondetString(p + "phone")
+	}
+	if depth > 0 && rt.Thorough() {
 		nc := rt.NondetLen(p+"ncontacts", 1)
 		for i := 0; i < nc; i++ {
 			pe.Contacts = append(pe.Contacts, symPerson(p+"c", depth-1))
